@@ -5,7 +5,8 @@
 
    The arithmetic of the encoder (size_pad_right, head_size, the word/bit constants) and the
    literals (dynamic base type names) come from Gen/GenAbiEnc.v, regenerated from
-   src/halmos/calldata.py on every run.
+   src/halmos/calldata.py on every run; process_dyn_params and the concretization a path gets
+   from Path.branch / Path.extend_path come from Gen/GenDynParams.v (src/halmos/sevm.py).
 
    Symbols.  Every z3 symbol created by the encoder is named
        p_<name>_<typ|length>_<uid()>_<new_symbol_id()>
@@ -15,7 +16,7 @@
    new_symbol_id is a strictly increasing counter or the uid() draws are distinct
    (stated as an assumption of the tie, checked on every generated case). *)
 From Coq Require Import ZArith List Bool Lia.
-From HV Require Import Spec.AbiSpec Gen.GenAbiEnc.
+From HV Require Import Spec.AbiSpec Gen.GenAbiEnc Gen.GenDynParams.
 Import ListNotations.
 Open Scope Z_scope.
 
@@ -258,9 +259,11 @@ Definition dpair (d : dynp) : nat * list nat := (d_id d, d_sizes d).
 
 (* ------------------------------------------------------------------ calldataload on a size symbol *)
 
-(* Concretization.process_dyn_params: candidates[d.size_symbol] = d.size_choices *)
+(* Concretization.process_dyn_params, regenerated from sevm.py on every run (Gen/GenDynParams.v):
+   on the code as it is, candidates[d.size_symbol] = d.size_choices for every d, nothing removed.
+   Dicts are association lists, newest binding first. *)
 Definition process_dyn_params (ds : list dynp) (cands : list (nat * list nat)) : list (nat * list nat) :=
-  fold_left (fun m d => (d_id d, d_sizes d) :: m) ds cands.
+  gen_process_dyn_params (map dpair ds) cands.
 
 Fixpoint assoc {A} (m : list (nat * A)) (k : nat) : option A :=
   match m with
@@ -272,18 +275,72 @@ Inductive loaded := LVar (k : nat) | LOther.     (* is_expr_var(loaded) or not *
 Inductive pushed := PConst (z : Z) | PSame.      (* what is pushed on the stack *)
 
 (* SEVM.calldataload after `loaded = ex.calldata().get_word(offset)`:
-   the list of successor states as (branch condition `sym == cand` if any, pushed value) *)
+   the list of successor states as (branch condition `sym == cand` if any, pushed value).
+   Which of the three outcomes applies -- the constant the path has fixed the symbol to, one
+   successor per candidate, the word itself -- is decided by gen_calldataload, regenerated from
+   the if/elif chain of SEVM.calldataload on every run (on the code as it is: the substitution
+   first, then the candidates). *)
 Definition calldataload (subst : list (nat * Z)) (cands : list (nat * list nat)) (l : loaded)
   : list (option (nat * nat) * pushed) :=
   match l with
   | LVar k =>
-      match assoc subst k with
-      | Some z => [(None, PConst z)]
-      | None =>
-          match assoc cands k with
-          | Some cs => map (fun c => (Some (k, c), PConst (Z.of_nat c))) cs
-          | None => [(None, PSame)]
-          end
-      end
-  | LOther => [(None, PSame)]
+      gen_calldataload true (assoc subst k) (assoc cands k)
+        (fun z => [(None, PConst z)])
+        (fun cs => map (fun c => (Some (k, c), PConst (Z.of_nat c))) cs)
+        [(None, PSame)]
+  | LOther =>
+      gen_calldataload false None None
+        (fun z => [(None, PConst z)]) (fun _ => [(None, PSame)]) [(None, PSame)]
+  end.
+
+(* ------------------------------------------------------------------ several calldata in one path *)
+
+(* One path registers many calldata: setUp's, then the test's or one per invariant transaction
+   (each Path extends the previous one: Path.extend_path copies the concretization), and
+   svm.createCalldata registers one per function of the target contract in a loop
+   (cheatcodes.create_calldata_generic), all in the same Concretization, with the symbol counter
+   (Exec.new_symbol_id) running on.  The state of a path as far as calldata is concerned: *)
+Record pstate := { p_next : nat; p_subst : list (nat * Z); p_cands : list (nat * list nat) }.
+
+Inductive pev :=
+| EvCalldata (c : cfg) (t : ty)   (* mk_calldata(abi, f, args, new_symbol_id); path.process_dyn_params(dyn_params) *)
+| EvBranch                        (* Path.branch(cond): the successor continues with its copy of the concretization *)
+| EvExtend                        (* Path(solver).extend_path(path): the next transaction / the call made with the calldata *)
+| EvFix (k : nat) (z : Z)         (* path.append(sym_k == z) -> Concretization.process_cond: substitution[sym_k] = z *)
+| EvSkip (n : nat).               (* n other symbols are created (fallback_selector/fallback_input, svm.create*, ...) *)
+
+(* the successor state and the dynamic parameters registered by the event *)
+Definition pstep (s : pstate) (ev : pev) : pstate * list dynp :=
+  match ev with
+  | EvCalldata c t =>
+      let '(_, ds, k') := create c t (p_next s) in
+      ({| p_next := k'; p_subst := p_subst s; p_cands := process_dyn_params ds (p_cands s) |}, ds)
+  | EvBranch =>
+      let '(su, ca) := gen_branch_conc (p_subst s) (p_cands s) in
+      ({| p_next := p_next s; p_subst := su; p_cands := ca |}, [])
+  | EvExtend =>
+      let '(su, ca) := gen_extend_conc (p_subst s) (p_cands s) in
+      ({| p_next := p_next s; p_subst := su; p_cands := ca |}, [])
+  | EvFix k z => ({| p_next := p_next s; p_subst := (k, z) :: p_subst s; p_cands := p_cands s |}, [])
+  | EvSkip n => ({| p_next := (p_next s + n)%nat; p_subst := p_subst s; p_cands := p_cands s |}, [])
+  end.
+
+Fixpoint prun (s : pstate) (evs : list pev) : pstate * list dynp :=
+  match evs with
+  | [] => (s, [])
+  | ev :: r =>
+      let '(s1, ds1) := pstep s ev in
+      let '(s2, ds2) := prun s1 r in
+      (s2, ds1 ++ ds2)
+  end.
+
+(* all the calldata items created along a run, in creation order *)
+Fixpoint pitems (s : pstate) (evs : list pev) : list item :=
+  match evs with
+  | [] => []
+  | ev :: r =>
+      match ev with
+      | EvCalldata c t => e_items (fst (fst (create c t (p_next s))))
+      | _ => []
+      end ++ pitems (fst (pstep s ev)) r
   end.
